@@ -410,7 +410,7 @@ def run_impl(c):
     return out
 
 
-PROPS = {'C18': ('backend', 'exchange'), 'C07': ('exchange',), 'C08': ('backend',)}
+PROPS = {'C18': ('backend', 'exchange'), 'C07': ('exchange',), 'C08': ('backend',), 'C11': ('backend',)}
 
 
 def relevant(prop, c):
@@ -479,6 +479,16 @@ def oracle(prop, c, out):
                 f.append(Finding(prop, 'http-executions-differ', f'[{b}>{i}] methods run over HTTP {o["exec"]}, directly {ref["exec"]}', c, o, ref['exec']))
         return f
     h = c['http']
+    if prop == 'C11':
+        # the synchronous and the asynchronous backends make the same of the same HTTP reply
+        outs = {b: core.canon(out[b]['final']) for b in c['backends']}
+        for a in [b for b in c['backends'] if b in ASYNC_BACKENDS]:
+            for sy in [b for b in c['backends'] if b in SYNC_BACKENDS]:
+                if outs[a] != outs[sy]:
+                    f.append(Finding(prop, 'backends-differ', f'the same HTTP reply: {sy} -> {json.dumps(outs[sy])[:150]}, {a} -> {json.dumps(outs[a])[:150]}', c,
+                                     {sy: outs[sy], a: outs[a]}))
+                    return f
+        return f
     if h['k'] != 'response':
         return f
     status_err = c['client']['rfs'] and int(h['status']) >= 400
